@@ -97,11 +97,22 @@ func (a *ipG2) closure(root *ssa.Function) []*ssa.Function {
 type ipFrame struct {
 	call ssa.CallInstruction
 	up   *ipFrame // frame of the caller's values; nil = the anchored function
+	virt *ipVirt  // set instead of call: a predicate a library function runs per element (ip_h3.go)
 }
 
 // ipResolve rewrites a value of frame fr into the caller's terms as long as it is a parameter.
 func ipResolve(v ssa.Value, fr *ipFrame) (ssa.Value, *ipFrame) {
 	for fr != nil {
+		if fr.virt != nil {
+			// captured values of a predicate run by a library call; its parameter (an element of the
+			// slice) has no value in the frame above
+			w, ok := fr.virt.resolve(v)
+			if !ok {
+				break
+			}
+			v, fr = w, fr.up
+			continue
+		}
 		p, ok := origin(v).(*ssa.Parameter)
 		if !ok {
 			break
@@ -173,6 +184,13 @@ func (a *ipG2) ways(v ssa.Value, truth bool, fr *ipFrame, depth int, busy map[*s
 	self := ipAlt{conds: []ipCond{{Cond{V: v, Truth: truth}, fr}}}
 	atom := []ipAlt{self}
 	if depth > ipMaxDepth {
+		return atom
+	}
+	if call := h3AnyOfCall(origin(v), truth); call != nil {
+		// slices.ContainsFunc(s, pred) and the like: the ways pred returns true for an element of s
+		if out, ok := a.h3AnyOf(call, self, fr, depth, busy); ok {
+			return out
+		}
 		return atom
 	}
 	switch x := origin(v).(type) {
@@ -393,11 +411,20 @@ func (a *ipG2) edgesExcludeP2P(blk *ssa.BasicBlock, fr *ipFrame) bool {
 func (a *ipG2) routeOf(w ipAlt, msg ssa.Value, fws *ssa.Parameter) ipRoute {
 	var rt ipRoute
 	for _, cd := range w.conds {
+		if call := h3AnyOfCall(origin(cd.V), cd.Truth); call != nil {
+			// a library search over the forwarder list succeeded: the list is not empty
+			if v, fr := ipResolve(call.Call.Args[0], cd.fr); fr == nil && fws != nil && ipSame(v, fws) {
+				rt.hasFw = true
+			}
+			continue
+		}
 		switch x := origin(cd.V).(type) {
 		case *ssa.Call:
 			if callName(&x.Call) == "fbb.Message.IsOnlyReceiver" && cd.Truth {
-				// of the very message that is appended
-				if recv, fr := ipResolve(x.Call.Args[0], cd.fr); fr == nil && ipSame(recv, msg) {
+				// of the very message that is appended, for one of the announced forwarder addresses
+				recv, fr := ipResolve(x.Call.Args[0], cd.fr)
+				list, lfr := h3ElemOf(x.Call.Args[1], cd.fr)
+				if fr == nil && h3SameMsg(recv, msg) && list != nil && lfr == nil && fws != nil && ipSame(list, fws) {
 					rt.sole = true
 				}
 			}
